@@ -9,7 +9,7 @@ ROOT = os.path.dirname(os.path.dirname(os.path.abspath(__file__)))
 HOOK_COMMITS = ["8ee60bb"]
 
 P = {
- "C01": dict(ready=False, technique="runtime monitoring: hostile-traffic workload through the real listener engine with panic/fatal-error, watchdog, lock-probe and state-snapshot monitors",
+ "C01": dict(ready=True, technique="runtime monitoring: hostile-traffic workload through the real listener engine with panic/fatal-error, watchdog, lock-probe and state-snapshot monitors",
    text="Held on the requests generated (random bytes, valid headers with random tails, every reference-encoded callback layout with field-level corruption, pivot nesting) over the state shapes built by valid traffic; each request is checked for panic, termination, held mutexes and - when answered with the decoy - an unchanged canonical state snapshot. Exploration level: no claim beyond the executions observed.",
    note="Trusts the in-process rig (real gin engine and handlers, no TLS in quick tier) and the reference Demon encoder; hangs shorter than the watchdog and inputs not generated are out of reach."),
  "C02": dict(ready=False, technique="runtime monitoring: differential check of the real task encoder against an independent reference Demon decoder over generated operator packages",
@@ -28,8 +28,9 @@ P = {
    text="", note=""),
  "C08": dict(ready=False, technique="runtime monitoring: pivot chains built through the protocol, responses unwrapped hop by hop by the reference Demon",
    text="", note=""),
- "C09": dict(ready=False, technique="runtime monitoring: forest invariants evaluated on live objects and the database after every event of enumerated histories",
-   text="", note=""),
+ "C09": dict(ready=True, technique="runtime monitoring: forest invariants evaluated on live objects and the database after every event of enumerated histories",
+   text="Held on the histories executed: bounded-exhaustive suffixes (length <= 2 quick, <= 3 thorough) over {register, connect incl. self/ancestor/existing, disconnect ok/fail incl. non-children, exit, kill date, operator mark dead/alive} on three agents after three prefixes (single root, star, chain), plus random histories on four agents incl. ids >= 2^31. Every event is a real callback relayed through the recorded parent chain or a real operator package; after every executed event the at-most-one-parent, links<=>parent, acyclicity and TS_Links-mirror invariants are evaluated, and removal of an agent must leave it with no links.",
+   note="Single goroutine: the property quantifies over histories, not schedules. TS_Links is read through a separate read-only connection. Sequences longer than the bounds and universes larger than four agents are out of reach."),
  "C10": dict(ready=False, technique="runtime monitoring with fault injection: SIGKILL at enumerated hook points, real restart on the same data, recovered state compared with a model of acknowledged operations",
    text="", note=""),
  "C11": dict(ready=False, technique="runtime monitoring: real operator clients through a fault-injecting TCP proxy; replay/fan-out order and exactly-once checkers, lock probes, race detector",
